@@ -48,6 +48,9 @@ type c11state struct {
 	sameVersionCompared int
 	jumpAheadsLive      int
 	smLive              bool
+	smOrphan            bool
+	smJumpSeen          bool
+	orphansJudged       int
 	quiescences         int
 }
 
@@ -229,6 +232,7 @@ func (mo *monitors) c11consume(gossip []recvGossip, sm []recvSM) {
 			c.lastSMView = nil
 			c.smH, c.smR, c.smIn = e.h, e.r, true
 			c.smLive = e.live
+			c.smOrphan, c.smJumpSeen = e.orphan, false
 			c.smEntranceVersion = 0
 			if e.resp.IsVRV() {
 				c.smEntranceVersion = e.resp.VRV.Version
@@ -239,6 +243,9 @@ func (mo *monitors) c11consume(gossip []recvGossip, sm []recvSM) {
 		v := &sm[i].v
 		if ja := v.JumpAheadRoundView; ja != nil && ja.Height > 0 {
 			mo.c11jumpAhead(ja)
+			if c.smIn && ja.Height == c.smH && ja.Round > c.smR {
+				c.smJumpSeen = true
+			}
 		}
 		if v.VRV.Height > 0 {
 			if !c.smIn || v.VRV.Height != c.smH || v.VRV.Round != c.smR {
@@ -365,6 +372,15 @@ func (mo *monitors) c11quiesce() {
 		if have != vv.Version {
 			mo.cs.violate("C11", "C11:statemachine-not-current-at-quiescence",
 				fmt.Sprintf("inputs stopped; the state machine is in %d/%d, the mirror's view of it has version %d, the newest version the state machine received is %d", vv.Height, vv.Round, vv.Version, have), nil)
+		}
+	}
+	// a state machine that entered a round the mirror had already dropped is entitled to
+	// a jump-ahead signal, however many rounds the mirror is ahead
+	if c.smIn && c.smOrphan && c.smH == vv.Height && c.smR < vv.Round {
+		c.orphansJudged++
+		if !c.smJumpSeen {
+			mo.cs.violate("C11", "C11:state-machine-in-a-dropped-round-never-told-to-jump-ahead",
+				fmt.Sprintf("inputs stopped; the state machine entered %d/%d after the mirror had left it, the mirror is voting on %d/%d, and no jump-ahead view has reached the state machine", c.smH, c.smR, vv.Height, vv.Round), nil)
 		}
 	}
 	// every ended round whose later round gossip has seen must have been justified (checked on arrival);
